@@ -20,12 +20,14 @@ echo "== demo with change (expect non-zero)"
 (cd $WT && PYTHONPATH=$WT timeout 600 /venv/bin/python seed/demo.py 2>&1 | tail -3); W=${PIPESTATUS[0]}
 (cd $WT && PYTHONPATH=$WT timeout 600 /venv/bin/python seed/demo.py >/dev/null 2>&1); W=$?
 echo "exit=$W"
-echo "== demo without change (expect 0)"
-git -C $WT stash -q
-(cd $WT && PYTHONPATH=$WT timeout 600 /venv/bin/python seed/demo.py 2>&1 | tail -2)
-(cd $WT && PYTHONPATH=$WT timeout 600 /venv/bin/python seed/demo.py >/dev/null 2>&1); WO=$?
+echo "== demo without change (expect 0): run against a clean scratch worktree (git stash is shared between worktrees)"
+CLEAN=/tmp/scratch/clean_$ID
+rm -rf $CLEAN; mkdir -p /tmp/scratch
+git -C /repo worktree add -q --detach $CLEAN HEAD
+(cd $CLEAN && PYTHONPATH=$CLEAN timeout 600 /venv/bin/python $WT/seed/demo.py 2>&1 | tail -2)
+(cd $CLEAN && PYTHONPATH=$CLEAN timeout 600 /venv/bin/python $WT/seed/demo.py >/dev/null 2>&1); WO=$?
 echo "exit=$WO"
-git -C $WT stash pop -q
+git -C /repo worktree remove --force $CLEAN
 echo "== checks against a scratch copy of /repo with the change applied"
 SCR=/tmp/scratch/seed_$ID
 rm -rf $SCR; mkdir -p /tmp/scratch
